@@ -27,14 +27,14 @@ theorem exitsOK_stk {cx : Cx} {m j : Nat} {s s1 : St} {env : Src.Env} (h : Exits
     ExitsOK cx m j s1 env := h.same hs.1 hs.2
 
 /-- the jump at the end of a block goes to the end label of the if-block -/
-theorem end_jump_corr (cx : Cx) (E : Nat) {r q : Nat} {o : Nat} (hit : itemAt cx.rs ⟨r, q⟩ = some (.ljump ⟨o, Gen.op_jump, []⟩ (some E)))
-    {m j k : Nat} (hend : R2 cx m j (target cx.rs E) k) : R2 cx m j ⟨r, q⟩ k :=
+theorem end_jump_corr (cx : Cx) (E : Nat) {r q : Nat} {o : Nat} (hit : ItemC cx.cp cx.rs ⟨r, q⟩ (.ljump ⟨o, Gen.op_jump, []⟩ (some E)))
+    {m j k : Nat} (hend : R2 cx m j (target cx.rs (cx.cp.σ E)) k) : R2 cx m j ⟨r, q⟩ k :=
   R2.silL (lab_jump hit jump_isJump) hend
 
 /-- what `_process_block` made of a branch's body, after the if-block patched it -/
 theorem brOK_of_block (cx : Cx) (fuel : Nat) (E : Nat) (s0 : St) (env : Src.Env) (neg : Bool) (hs : List Hdr) (body : Stmts)
     {bps : List BP} {ops : List LItem} {sa sb sc : St} {blk : Blk}
-    (hBody : PieceOK cx ops sa sb (fun k b => Src.trStmts fuel [] env (toSrcStmts body) k b) env)
+    (hBody : PieceOK cx ops sa sb (fun k b => Src.trStmts fuel cx.sm env (toSrcStmts body) k b) env)
     (hpb : processBlock bps true true ops sb = .ok (blk, sc)) (hok : HdrsOK hs) (hnm : NamesOf hs bps)
     (hpos : ∀ b ∈ bps, b.positive = !neg) (hstk : SameStk s0 sa) :
     BrOK cx fuel E s0 env ⟨neg, hs, body, blk.hdrs, patchNone E blk.items, sc⟩ ∧ SameStk sb sc ∧ NoNone blk.hdrs ∧
@@ -85,17 +85,17 @@ theorem brOK_of_block (cx : Cx) (fuel : Nat) (E : Nat) (s0 : St) (env : Src.Env)
         rw [hitems, patchNone_append, patchNone_append, patchNone_append, patchNone_id E ops hBody.nonone]
         simp [patchNone, patchItem]
     -- entering at the start label
-    have henter : ∀ r ib, Placed cx.rs r ib (patchNone E blk.items) → ∀ k b,
-        AgreeOn cx.N cx.Z b (Src.trStmts fuel [] env (toSrcStmts body) k b).1 → ∀ m j, ExitsOK cx m j s0 env → NamedIn cx sc →
-        R2 cx m j (target cx.rs E) k →
-        R2 cx m j ⟨r, ib⟩ (Src.trStmts fuel [] env (toSrcStmts body) k b).2 ∧ target cx.rs sL = ⟨r, ib⟩ := by
+    have henter : ∀ r ib, Placed cx.cp cx.rs r ib (patchNone E blk.items) → ∀ k b,
+        AgreeOn cx.N cx.Z b (Src.trStmts fuel cx.sm env (toSrcStmts body) k b).1 → ∀ m j, ExitsOK cx m j s0 env → NamedIn cx sc →
+        R2 cx m j (target cx.rs (cx.cp.σ E)) k →
+        R2 cx m j ⟨r, ib⟩ (Src.trStmts fuel cx.sm env (toSrcStmts body) k b).2 ∧ target cx.rs (cx.cp.σ sL) = ⟨r, ib⟩ := by
       intro r ib hp k b hag m j hex hin hend
       rw [hP] at hp
-      have hp' : Placed cx.rs r ib ([LItem.label sL false] ++ ops ++ (tail' ++ [LItem.label (sb.lbc + 1) false])) := by
+      have hp' : Placed cx.cp cx.rs r ib ([LItem.label sL false] ++ ops ++ (tail' ++ [LItem.label (sb.lbc + 1) false])) := by
         simpa [List.append_assoc] using hp
       refine block_enter cx hBody sL _ hp' k b hag m j (exitsOK_stk hex hstk) (NamedIn.le hin hst.3) (fun hf => ?_)
       obtain ⟨o, rfl⟩ := htail hf
-      have hit : itemAt cx.rs ⟨r, ib + 1 + ops.length⟩ = some (.ljump ⟨o, Gen.op_jump, []⟩ (some E)) := by
+      have hit : ItemC cx.cp cx.rs ⟨r, ib + 1 + ops.length⟩ (.ljump ⟨o, Gen.op_jump, []⟩ (some E)) := by
         have := hp'.item (d := 1 + ops.length) (x := .ljump ⟨o, Gen.op_jump, []⟩ (some E))
           (by rw [show 1 + ops.length = ops.length + 1 by omega]; simp)
         simpa [Nat.add_assoc] using this
@@ -109,16 +109,16 @@ theorem brOK_of_block (cx : Cx) (fuel : Nat) (E : Nat) (s0 : St) (env : Src.Env)
       · exact hBody.nonone x hx root e
       · exact hnt x hx root e
       · cases e
-    have hlabs : ∀ r ib, Placed cx.rs r ib (patchNone E blk.items) → ∀ k b,
-        AgreeOn cx.N cx.Z b (Src.trStmts fuel [] env (toSrcStmts body) k b).1 → ∀ m j, ExitsOK cx m j s0 env → NamedIn cx sc →
-        R2 cx m j (target cx.rs E) k → LabExport cx env m j b (Src.trStmts fuel [] env (toSrcStmts body) k b).1 := by
+    have hlabs : ∀ r ib, Placed cx.cp cx.rs r ib (patchNone E blk.items) → ∀ k b,
+        AgreeOn cx.N cx.Z b (Src.trStmts fuel cx.sm env (toSrcStmts body) k b).1 → ∀ m j, ExitsOK cx m j s0 env → NamedIn cx sc →
+        R2 cx m j (target cx.rs (cx.cp.σ E)) k → LabExport cx env m j b (Src.trStmts fuel cx.sm env (toSrcStmts body) k b).1 := by
       intro r ib hp k b hag m j hex hin hend
       rw [hP] at hp
-      have hp' : Placed cx.rs r ib ([LItem.label sL false] ++ ops ++ (tail' ++ [LItem.label (sb.lbc + 1) false])) := by
+      have hp' : Placed cx.cp cx.rs r ib ([LItem.label sL false] ++ ops ++ (tail' ++ [LItem.label (sb.lbc + 1) false])) := by
         simpa [List.append_assoc] using hp
       refine block_labs cx hBody sL _ hp' k b hag m j (exitsOK_stk hex hstk) (NamedIn.le hin hst.3) (fun hf => ?_)
       obtain ⟨o, rfl⟩ := htail hf
-      have hit : itemAt cx.rs ⟨r, ib + 1 + ops.length⟩ = some (.ljump ⟨o, Gen.op_jump, []⟩ (some E)) := by
+      have hit : ItemC cx.cp cx.rs ⟨r, ib + 1 + ops.length⟩ (.ljump ⟨o, Gen.op_jump, []⟩ (some E)) := by
         have := hp'.item (d := 1 + ops.length) (x := .ljump ⟨o, Gen.op_jump, []⟩ (some E))
           (by rw [show 1 + ops.length = ops.length + 1 by omega]; simp)
         simpa [Nat.add_assoc] using this
